@@ -4,6 +4,11 @@ TB = ("Trusted: Coq 8.16.1 kernel + vm_compute (no native_compute, no axioms: ev
       "the hand-written Gallina model, tied to /repo only by the correspondence check of each run (sampled behaviours); the Go harness (generators, oracles) ")
 SRV = ("; the server model (Model/Server.v: evaluatePushPullCase, processSubscribeOrCreate, push/pull/commit over an abstract document store) and the client protocol model (Model/Wire.v) are replayed on every run against the real OrdaService running in process over an in-memory MongoDB/MQTT stand-in and real clients: every request, response, store state and publish must coincide")
 TEXTS = {
+ "C08": {
+  "text": "Theorem C08_fault_is_contained: whichever storage command fails while a pack is served (lookups, pull, and the three writes of the commit), from any consistent store, every datatype document (end of log, all client checkpoints) is unchanged, every stored operation is still stored, the only possible residue is operation documents beyond the recorded end of a log (never handed out, removed by the next commit), and the client gets an error response with nothing published — or the failing command was not reached and the outcome is the fault-free one. On every run a storage command at a random position (collection, client, datatype lookups, pull, purge, insert, update, post-response snapshot work) is made to fail in real client-server histories; request, response and store are replayed on the faulty-handler model, retries follow, and all replicas and the server's rebuild are compared at quiescence.",
+  "note": TB + SRV + "; the recovery half (retries restore the fault-free log, C08_statement_list) is exercised, not proved; crash = failing command + lost response; snapshot writes after the response are exercised but not modelled.",
+  "technique": "Coq proof (fault containment by case analysis over the handler's command points) + in-Coq differential replay with injected storage faults + quiescence oracle",
+ },
  "C14": {
   "text": "Theorems: every JSON-representable value decodes back to itself at any nesting depth; timestamps survive the omission of zero fields; every operation of the 12 body-carrying types encodes to a message that decodes to the same operation (identifier, type, body), also through the stored document where the type travels by name (the two enum tables are proved mutually inverse). On every run 1500 operations built with the public constructors from Go values of every numeric width, pointers, structs, maps, slices and strings over arbitrary code points go through ToModelOperation -> protobuf bytes -> OperationDoc -> BSON bytes -> back -> ModelToOperation and through the encoding-echo service; the produced message is compared with the model's and the decoded operation with the original.",
   "note": TB + "; encoding/json, protobuf, BSON and float64 are exercised, not modelled; known finding: integers beyond 2^53 nested inside container values are not converted to float64 by the sender and so differ after decoding.",
